@@ -590,6 +590,11 @@ func startWorker() *Worker {
 
 // Run executes a session in the worker; a dead worker yields Crashed=true and the worker is restarted.
 func (c *Ctx) RunSession(s *Session) *SessResult {
+	if c.Wedges >= 1 {
+		// a session has already hung the client (that costs a two-minute timeout): the property is violated and has
+		// been reported; do not spend hours confirming it on every remaining case
+		return &SessResult{Wedged: true, Written: []string{}, Panics: []string{}, Connect: "skipped-after-wedges"}
+	}
 	if c.W == nil {
 		c.W = startWorker()
 	}
@@ -635,6 +640,7 @@ func (c *Ctx) RunSession(s *Session) *SessResult {
 		c.W.cmd.Process.Kill()
 		c.W.cmd.Wait()
 		c.W = nil
+		c.Wedges++
 		return &SessResult{Wedged: true, Written: []string{}, Panics: []string{}, Connect: "worker-timeout"}
 	}
 }
